@@ -166,6 +166,15 @@ Definition make_unique_fuel (fuel : nat) (base : name) (g : groups) : option nam
 Definition make_unique (base : name) (g : groups) : option name :=
   make_unique_fuel (S (length g)) base g.
 
+(** what the loop is meant to return: a name not in use that is [base] itself or, when [base]
+    is taken, [base ++ dec d] for the least d >= 1 whose candidate is free *)
+Definition UniqueOf (base : name) (g : groups) (n : name) : Prop :=
+  ~ In n (map fst g) /\
+  (n = base \/
+   (In base (map fst g) /\
+    exists d, 1 <= d /\ n = base ++ dec d /\
+              forall e, 1 <= e < d -> In (base ++ dec e) (map fst g))).
+
 (** ** find_known_kerning_groups + the scan over the kerning pairs *)
 Definition known1 (g : groups) : list name :=
   fold_left (fun s n => if starts_with MMKL n then sinsert n s else s) (keys g) [].
@@ -245,9 +254,9 @@ Definition Cand2 (g : groups) (k : kerning) (glyphs : list name) (c : name) : Pr
   (((exists t, c = MMKR ++ t) /\ ~ (exists t, c = MMKL ++ t)) \/
    ((exists a row, In (a, row) k /\ is_key c row) /\ ~ In c glyphs /\ ~ side2 c)).
 
-(** kerning pairs as triples *)
+(** kerning pairs as triples: the kerning maps (a, b) to v *)
 Definition pair_in (k : kerning) (a b : name) (v : val) : Prop :=
-  exists row, In (a, row) k /\ In (b, v) row.
+  exists row, lookup a k = Some row /\ lookup b row = Some v.
 
 (** Groups part: originals kept; every candidate duplicated under a fresh name of its side with
     identical members; distinct candidates get distinct names; nothing else is added. *)
@@ -288,6 +297,20 @@ Definition PairCollision (g : groups) (k : kerning) (gs : list name) : Prop :=
   | Ok (_, r1, r2) => no_pair_collision r1 r2 k = false
   | _ => False
   end.
+
+(** ** the class in which the conversion is not the one the glyph names demand (F21): the
+    name set handed to upconvert_kerning is the interner's content, not the glyph names; the
+    groups to duplicate then differ. *)
+Definition SameCands (g : groups) (k : kerning) (a b : list name) : Prop :=
+  (forall c, Cand1 g k a c <-> Cand1 g k b c) /\
+  (forall c, Cand2 g k a c <-> Cand2 g k b c).
+Definition ClassF21 (g : groups) (k : kerning) (interned glyphs : list name) : Prop :=
+  ~ SameCands g k interned glyphs.
+(** its executable form (used by the correspondence run) *)
+Definition inclb (l1 l2 : list name) : bool := forallb (fun c => memb c l2) l1.
+Definition same_candsb (g : groups) (k : kerning) (a b : list name) : bool :=
+  inclb (cands1 g k a) (cands1 g k b) && inclb (cands1 g k b) (cands1 g k a) &&
+  inclb (cands2 g k a) (cands2 g k b) && inclb (cands2 g k b) (cands2 g k a).
 
 (** ** call sites (src/font.rs) *)
 Inductive lerr : Type :=
